@@ -372,6 +372,9 @@ Section CdbDb.
     2:{ intros k' v Hin. destruct (Hms k' v Hin) as [ml [Hml ->]].
         apply neq_by_second. rewrite second_map_key. cbn [nth].
         destruct (kind_of ml Hml) as [K|K]; rewrite K; destruct Hk as [ -> | [ -> | -> ] ]; discriminate. }
+    generalize (prefix_set (fun _ => true) f) (prefix_set (fun s => is_v4 (s_addr s)) f)
+               (prefix_set (fun s => negb (is_v4 (s_addr s))) f).
+    intros P0 P4 P6.
     destruct Hk as [ -> | [ -> | -> ] ]; reflexivity.
   Qed.
 
@@ -383,7 +386,7 @@ Section CdbDb.
                 (exists n, In n nets /\ nl_map n = m /\ nl_net n = s) ->
                 get (map nk nets) (net_key m (s_addr s) (s_len s)) = Some (loc_bytes (s_loc s))).
     { induction nets as [|n nets IH]; intros Hsub [n0 [Hn0 [Em Es]]]; [contradiction|].
-      simpl. unfold nk at 1. destruct (bytes_eqb _ _) eqn:E.
+      cbn [map]. unfold nk at 1. cbn [get]. destruct (bytes_eqb _ _) eqn:E.
       - apply bytes_eqb_eq in E. apply net_key_inj in E.
         + destruct E as [E1 [E2 E3]].
           assert (In (nl_net n) S) by (apply nets_of_in; exists n; auto using in_eq).
@@ -413,3 +416,106 @@ Section CdbDb.
     cbn [get]. rewrite !F by (cbn [nth features_key]; discriminate). reflexivity.
   Qed.
 End CdbDb.
+
+(* ---------------------------------------------------------------- prefix-length sets *)
+
+Lemma in_desc_from : forall n i, In i (desc_from n) <-> i <= N.of_nat n.
+Proof.
+  induction n as [|n IH]; intro i.
+  - simpl. split; [intros [<-|[]]; lia | intro; left; lia].
+  - cbn [desc_from In]. rewrite IH. rewrite Nnat.Nat2N.inj_succ. lia.
+Qed.
+
+Lemma desc_from_sorted : forall n, StronglySorted (fun x y => y < x) (desc_from n).
+Proof.
+  induction n as [|n IH].
+  - simpl. constructor; constructor.
+  - cbn [desc_from]. constructor; auto. apply Forall_forall. intros y Hy. apply in_desc_from in Hy.
+    rewrite Nnat.Nat2N.inj_succ. lia.
+Qed.
+
+Lemma filter_sorted : forall {A} (R : A -> A -> Prop) p l, StronglySorted R l -> StronglySorted R (filter p l).
+Proof.
+  induction l as [|x l IH]; simpl; intro H; [constructor|].
+  inversion H; subst. destruct (p x); auto. constructor; auto.
+  rewrite Forall_forall in *. intros y Hy. apply filter_In in Hy. destruct Hy; auto.
+Qed.
+
+Lemma prefix_set_sorted : forall p f, StronglySorted (fun x y => y < x) (prefix_set p f).
+Proof. intros. unfold prefix_set. apply filter_sorted. apply desc_from_sorted. Qed.
+
+Lemma prefix_set_le : forall p f mk, In mk (prefix_set p f) -> mk <= 128.
+Proof. intros p f mk H. unfold prefix_set in H. apply filter_In in H. destruct H as [H _]. apply in_desc_from in H. exact H. Qed.
+
+Lemma prefix_set_in : forall p f n, In n (f_nets f) -> p (nl_net n) = true -> s_len (nl_net n) <= 128 ->
+  In (s_len (nl_net n)) (prefix_set p f).
+Proof.
+  intros p f n Hn Hp Hl. unfold prefix_set. apply filter_In. split.
+  - apply in_desc_from. exact Hl.
+  - apply existsb_exists. exists n. split; auto. rewrite Hp, N.eqb_refl. reflexivity.
+Qed.
+
+(* ---------------------------------------------------------------- C03, CDB side *)
+
+(* the two forms of net.IPNet the callers build: a 128-bit mask (IPv6 resolver, ECS
+   family 2) or a 32-bit mask on a v4-mapped address (IPv4 resolver, ECS family 1);
+   plen is the client's prefix length in 128-bit terms *)
+Definition client_plen (a bits ones plen : N) : Prop :=
+  (bits = 128 /\ ones <= 128 /\ plen = ones) \/
+  (bits = 32 /\ ones <= 32 /\ is_v4 a = true /\ plen = 96 + ones).
+
+Theorem cdb_is_lpm : forall sep f m db a bits ones plen,
+  wf_kinds f = true -> wf_addrs f = true -> wf_subnets (nets_of f m) -> cdb_db f = Some db ->
+  a < two128 -> client_plen a bits ones plen ->
+  cdb_get_location sep db m (mkClient (Some a) bits ones) =
+  Ok (lpm_result (lpm (nets_of f m) (fam (clean_mask a plen)) (clean_mask a plen) plen)).
+Proof.
+  intros sep f m db a bits ones plen Hk Ha wfS Hdb Halt Hc.
+  assert (Hp : plen <= 128) by (destruct Hc as [[_ [? ->]]|[_ [? [_ ->]]]]; lia).
+  unfold cdb_get_location.
+  assert (Emax : cdb_maxmask (mkClient (Some a) bits ones) = plen).
+  { unfold cdb_maxmask, c_size, c_maskbits, c_isv4. cbn [c_ip c_bits c_ones].
+    destruct Hc as [[-> [H1 ->]]|[-> [H1 [H2 ->]]]].
+    - assert (E : (128 <? ones) = false) by (apply N.ltb_ge; auto). rewrite E.
+      rewrite Bool.andb_false_r. rewrite N.add_0_r, N.mod_mod by discriminate. apply N.mod_small. lia.
+    - assert (E : (32 <? ones) = false) by (apply N.ltb_ge; lia). rewrite E, H2. cbn [andb N.eqb Pos.eqb].
+      rewrite (N.mod_small ones 256) by lia. rewrite N.mod_small by lia. lia. }
+  rewrite Emax. cbn [c_isv4 c_ip c_addr].
+  set (isv4 := is_v4 a && (96 <=? plen)).
+  set (S := nets_of f m) in *.
+  (* the list of prefix lengths that is read *)
+  assert (Hlist : exists masks,
+            get db (if sep then if isv4 then [0; 52] else [0; 54] else [0; 47]) = Some masks /\
+            StronglySorted (fun x y => y < x) masks /\ (forall mk, In mk masks -> mk <= 128) /\
+            (forall t, In t S -> elig isv4 plen a t -> In (s_len t) masks)).
+  { assert (Hin : forall t, In t S -> exists n, In n (f_nets f) /\ nl_map n = m /\ nl_net n = t)
+      by (intros t Ht; apply (nets_of_in f m); auto).
+    destruct sep; [destruct isv4 eqn:V|].
+    - rewrite (get_prefix_set f Hk db Hdb 52) by auto. cbn [N.eqb Pos.eqb]. eexists. split; [reflexivity|].
+      split; [apply prefix_set_sorted|]. split; [apply prefix_set_le|].
+      intros t Ht [E1 [E2 E3]]. destruct (Hin t Ht) as [n [Hn [_ <-]]].
+      destruct (wf_subnetb_spec _ (wf_in S _ wfS Ht)) as [W1 [W2 [W3 W4]]].
+      apply prefix_set_in; auto.
+      unfold isv4 in V. apply Bool.andb_true_iff in V. destruct V as [V1 V2].
+      specialize (E2 eq_refl). apply contains_clean in E3; auto.
+      rewrite <- E3, (is_v4_clean_ge a _ E2 W1). exact V1.
+    - rewrite (get_prefix_set f Hk db Hdb 54) by auto. cbn [N.eqb Pos.eqb]. eexists. split; [reflexivity|].
+      split; [apply prefix_set_sorted|]. split; [apply prefix_set_le|].
+      intros t Ht [E1 [E2 E3]]. destruct (Hin t Ht) as [n [Hn [_ <-]]].
+      destruct (wf_subnetb_spec _ (wf_in S _ wfS Ht)) as [W1 [W2 [W3 W4]]].
+      apply prefix_set_in; auto. apply Bool.negb_true_iff.
+      destruct (is_v4 (s_addr (nl_net n))) eqn:Vt; auto. exfalso.
+      pose proof (v4_addr_len _ W3 Vt) as L. apply contains_clean in E3; auto.
+      rewrite <- E3, (is_v4_clean_ge a _ L W1) in Vt.
+      unfold isv4 in V. rewrite Vt in V. cbn [andb] in V. apply N.leb_gt in V. lia.
+    - rewrite (get_prefix_set f Hk db Hdb 47) by auto. cbn [N.eqb Pos.eqb]. eexists. split; [reflexivity|].
+      split; [apply prefix_set_sorted|]. split; [apply prefix_set_le|].
+      intros t Ht _. destruct (Hin t Ht) as [n [Hn [_ <-]]].
+      destruct (wf_subnetb_spec _ (wf_in S _ wfS Ht)) as [W1 _].
+      apply prefix_set_in; auto. }
+  destruct Hlist as [masks [G [Hs [Hle Hall]]]]. rewrite G.
+  destruct (cdb_loop_spec S wfS (fun x len => get db (net_key m x len))
+              (get_net_hit f m Hk Ha wfS db Hdb) (get_net_miss f m Hk Ha db Hdb)
+              isv4 plen a Halt masks a Hs Hle (fun _ _ => eq_refl) Hall) as [r [Er Hr]].
+  rewrite Er. f_equal. apply cdb_result_lpm; auto.
+Qed.
